@@ -7,6 +7,7 @@ import (
 	"fmt"
 	"math"
 	"math/rand"
+	"reflect"
 	"strings"
 
 	"github.com/antonmedv/expr/parser"
@@ -213,22 +214,41 @@ func bucket(n int) string {
 
 // countCreated: a lower bound of the elements created for a result: the elements of every
 // []interface{} / map[string]interface{} / []int reachable in it.
+// countCreated: elements of the arrays / maps reachable from the result, each distinct array or map counted ONCE
+// (a closure like {[#, #]} puts the same inner array into the result twice: it was created once)
 func countCreated(v interface{}) int {
-	switch x := v.(type) {
-	case []interface{}:
-		n := len(x)
-		for _, e := range x {
-			n += countCreated(e)
+	seen := map[uintptr]bool{}
+	var rec func(v interface{}) int
+	rec = func(v interface{}) int {
+		switch x := v.(type) {
+		case []interface{}:
+			if len(x) > 0 {
+				p := reflect.ValueOf(x).Pointer()
+				if seen[p] {
+					return 0
+				}
+				seen[p] = true
+			}
+			n := len(x)
+			for _, e := range x {
+				n += rec(e)
+			}
+			return n
+		case map[string]interface{}:
+			p := reflect.ValueOf(x).Pointer()
+			if seen[p] {
+				return 0
+			}
+			seen[p] = true
+			n := 0
+			for _, e := range x {
+				n += 1 + rec(e)
+			}
+			return n
 		}
-		return n
-	case map[string]interface{}:
-		n := 0
-		for _, e := range x {
-			n += 1 + countCreated(e)
-		}
-		return n
+		return 0
 	}
-	return 0
+	return rec(v)
 }
 
 // ---------------------------------------------------------------- C07
